@@ -312,6 +312,24 @@ func (ex *Exec) timeType() types.Type { return ex.P.pkgs["time"].Type("Time").Ty
 func iTimeNow(ex *Exec, st *State, fr *Frame, dst ssa.Value, args []Value) {
 	k := st.clock
 	st.clock++
+	if v, ok := st.env["VSYM_CLOCK"]; ok && v.conc && v.c == "concrete" {
+		// a concrete, strictly increasing clock for harnesses whose property does not involve time
+		tt := ex.timeType()
+		ts := tt.Underlying().(*types.Struct)
+		sv := &StructV{f: make([]Value, ts.NumFields())}
+		for i := 0; i < ts.NumFields(); i++ {
+			switch ts.Field(i).Name() {
+			case "wall":
+				sv.f[i] = mkBV(64, 0)
+			case "ext":
+				sv.f[i] = mkBV(64, uint64(1000000+k))
+			default:
+				sv.f[i] = zeroVal(ts.Field(i).Type())
+			}
+		}
+		ex.ret(fr, dst, sv)
+		return
+	}
 	sec := mkVar(fmt.Sprintf("clock.sec#%d", k), SBV(64))
 	nsec := mkVar(fmt.Sprintf("clock.nsec#%d", k), SBV(64))
 	st.inputs = append(st.inputs, InputRec{Name: sec.name, T: sec, Kind: "clock"}, InputRec{Name: nsec.name, T: nsec, Kind: "clock"})
